@@ -1,6 +1,7 @@
 """C11 – reordering glyphs leaves every table's meaning intact."""
 import io
 import os
+import re
 from collections import OrderedDict
 
 from hypothesis import strategies as st
@@ -158,6 +159,15 @@ def font_case(draw):
             classes = {g: draw(st.integers(1, 3)) for g in _pick(draw, bases, 2, min(6, len(bases)))}
             hand.append({"kind": kind, "rules": rules, "classes": classes})
             kinds.append(kind)
+    if draw(st.sampled_from([False, False, True])):
+        # the same rules registered under a second feature tag (kern + dist, liga + dlig ...): two lookups with identical content
+        cands = [f for f in fea if re.match(r"^feature (\w{4}) \{ .* \} \1;$", f) and "lookup " not in f]
+        if cands:
+            f = draw(st.sampled_from(cands))
+            tag = f[8:12]
+            new_tag = {"kern": "dist", "liga": "dlig", "salt": "ss03", "mult": "ccmp", "calt": "clig", "rvrs": "rclt", "curs": "ss04", "mark": "abvm", "mkmk": "blwm"}.get(tag, "ss05")
+            fea.append(f.replace("feature %s {" % tag, "feature %s {" % new_tag).replace("} %s;" % tag, "} %s;" % new_tag))
+            kinds.append("duplicate-lookup")
     perm = draw(st.permutations(names))
     colr = draw(st.sampled_from([None, None, 0, 1]))
     flavour = draw(st.sampled_from(["ttf", "ttf", "ttf", "cff"]))
@@ -363,7 +373,7 @@ def judge(case):
     before = dict(layout_sem(ref))
     before.update(base_sem(ref))
     before["COLR"] = colr_sem(ref)
-    how = (sum(len(x) for x in case["perm"]) + len(case["perm"])) % 4
+    how = (case["perm"].index(min(case["perm"])) + len(case["kinds"]) + len(case["fea"])) % 4  # any function of the case will do
     v.cls("load_fully:" + ["path", "lazy", "default", "eager"][how])
     tmp = None
     if how == 0:
